@@ -6,6 +6,7 @@
 // never decreases, and puts every face before its cofaces.
 // usage: cubical_values <seed> <tier>     prints one JSON line
 #include <gudhi/Bitmap_cubical_complex.h>
+#include <gudhi/Persistent_cohomology.h>
 #include <gudhi/Bitmap_cubical_complex_periodic_boundary_conditions_base.h>
 #include <algorithm>
 #include <cstdio>
@@ -87,5 +88,19 @@ int main(int argc, char** argv) {
   for (auto& s : shapes) run_shape(s, {}, false, rng, samples);
   std::vector<std::pair<std::vector<unsigned>, std::vector<bool>>> per = {{{3}, {true}}, {{4}, {false}}, {{3, 3}, {true, true}}, {{3, 4}, {true, false}}, {{4, 3}, {false, true}}, {{3, 3}, {false, false}}, {{3, 2, 3}, {true, false, true}}, {{2, 3, 2}, {false, true, false}}, {{3, 3, 3}, {true, true, true}}, {{3, 3, 2}, {true, true, false}}};
   for (auto& pm : per) run_shape(pm.first, pm.second, true, rng, samples);
+  // Betti numbers of the periodic grids over Z/2, Z/3 and Z/5 (signs matter from Z/3 on): a product of k circles and intervals has
+  // Betti numbers binomial(k, i), whatever the (finite) values on the top cells
+  for (auto& pm : per) { unsigned k = 0; for (bool b : pm.second) k += b; size_t nin = 1; for (auto sd : pm.first) nin *= sd;
+    std::vector<double> vals(nin); for (auto& x : vals) { rng ^= rng << 13; rng ^= rng >> 7; rng ^= rng << 17; x = (double)(rng % 5); }
+    for (int p : {2, 3, 5}) { ++total_cases; std::string tag = "periodic shape"; for (auto sd : pm.first) tag += " " + std::to_string(sd); tag += " mask "; for (bool b : pm.second) tag += b ? "p" : "f"; tag += " Betti numbers over Z/" + std::to_string(p);
+      snprintf(g_cur, 256, "%s", tag.c_str());
+      typedef Bitmap_cubical_complex<Bitmap_cubical_complex_periodic_boundary_conditions_base<double>> PCC;
+      PCC cc(pm.first, vals, pm.second, true);
+      Gudhi::persistent_cohomology::Persistent_cohomology<PCC, Gudhi::persistent_cohomology::Field_Zp> pc(cc, true);
+      pc.init_coefficients(p); pc.compute_persistent_cohomology(0);
+      std::vector<long> b(pm.first.size() + 1, 0); for (auto& pr : pc.get_persistent_pairs()) if (std::get<1>(pr) == cc.null_simplex()) b[cc.dimension(std::get<0>(pr))]++;
+      std::string got, want; bool ok = true; long binom = 1;
+      for (unsigned i = 0; i <= pm.first.size(); i++) { long w = i <= k ? binom : 0; if (b[i] != w) ok = false; got += std::to_string(b[i]) + " "; want += std::to_string(w) + " "; if (i < k) binom = binom * (k - i) / (i + 1); }
+      if (!ok) fail(tag + ": " + got + "(expected " + want + ")"); } }
   printf("{\"class\":\"cubical values and order\",\"checked\":%ld,\"mismatches\":%ld,\"first\":[%s]}\n", total_cases, bad, firsts.c_str());
   return 0; }
